@@ -72,7 +72,7 @@ def power_lemmas(name, d, g, W):
             T.sqrt(g * W[2] / W[0] * 1)
 
 
-def build(chk):
+def _build_own(chk):
     it = chk.interp
     chk.assumptions += [
         "machine arithmetic treated as mathematical (real) arithmetic ('residual zero to round-off')",
@@ -215,3 +215,10 @@ class BCFixedPoint:
         _hint_obligation("bc-%s-receives-the-uniform-state" % name, z3.And(*[x == w for x, w in zip(Wd, W)]))
         ses.trace.append(("contract", "flowdyn.modelphy.euler::euler1d.bc_" + name))
         return list(W)
+
+
+def build(chk):
+    _build_own(chk)
+    # the flux consistency clause the zero-residual argument instantiates (every registered flux, C02)
+    from . import C02
+    chk.include(C02, r"/consistency$", "uses:C02")
